@@ -184,27 +184,51 @@ func body(s *simrt.Sim, tier string) {
 			}
 		})
 	}
-	// independent byte-slice pools
-	for i := 0; i < 2; i++ {
+	// byte-slice pools: one private pool per client, plus one pool shared by all clients (each slice
+	// handed out by Get belongs to one caller until it is Put back)
+	shared := byteslicepool.NewByteSlicePool(8)
+	for i := 0; i < 3; i++ {
 		i := i
 		name := fmt.Sprintf("bsp%d", i)
 		names = append(names, name)
 		s.Go(name, func() {
-			pool := byteslicepool.NewByteSlicePool(16)
-			for j := 0; j < 3; j++ {
-				b := pool.Get(32)
+			own := byteslicepool.NewByteSlicePool(16)
+			for j := 0; j < 5; j++ {
+				pool := own
+				if j > 0 {
+					pool = shared
+				}
+				b := pool.Get(8)
 				if len(b) != 0 {
 					s.Fail("pooled-slice-not-empty", fmt.Sprintf("ByteSlicePool.Get returned a slice of length %d", len(b)))
 				}
-				full := b[:cap(b)]
-				for _, x := range full {
+				for _, x := range b[:cap(b)] {
 					if x != 0 {
 						s.Fail("pooled-slice-dirty", "ByteSlicePool.Get returned a slice carrying a previous user's bytes")
 						break
 					}
 				}
-				b = append(b, bytes.Repeat([]byte{byte(0x40 + i)}, 20)...)
+				orig := b
+				if s.Choose(2, "bsp.grow") == 0 {
+					b = pool.Resize(b, cap(b)+24) // grows: the result is a new array, orig stays the caller's
+				} else {
+					b = pool.Resize(b, cap(b)-1) // stays within the capacity: same array
+				}
+				id := byte(0x41 + i)
+				for k := range b {
+					b[k] = id
+				}
 				s.Yield("bsp")
+				for _, x := range b {
+					if x != id {
+						s.Fail("pooled-slice-shared", fmt.Sprintf("client %d: a slice obtained from the pool was overwritten by another client while it was still in use", i))
+						break
+					}
+				}
+				s.Yield("bsp.put")
+				if &orig[:1][0] != &b[:1][0] {
+					pool.Put(orig)
+				}
 				pool.Put(b)
 			}
 		})
